@@ -42,12 +42,14 @@ Definition C09_ex_partial_only : esk :=
   {| e_k := 1; e_n := 1; e_cw := 4632092954238156800; e_wmax := 4632092954238156800; e_rho := 4581421828931458171;
      e_c := 4607182418800017407; e_data := []; e_part := Some 9 |}.
 
+Ltac wf_tac ex := unfold wf; change (sk_empty ex) with false; cbv iota; unfold wf_sample, lt64;
+  cbn [e_k e_n e_cw e_wmax e_rho e_c e_data e_part ex]; repeat split; try discriminate; repeat constructor.
 Lemma C09_ex_wf : wf C09_ex.
-Proof. unfold wf, wf_sample, lt64. vm_compute. repeat split; try reflexivity; try discriminate; repeat constructor. Qed.
+Proof. wf_tac C09_ex. Qed.
 Lemma C09_ex_partial_only_wf : wf C09_ex_partial_only.
-Proof. unfold wf, wf_sample, lt64. vm_compute. repeat split; try reflexivity; try discriminate; repeat constructor. Qed.
+Proof. wf_tac C09_ex_partial_only. Qed.
 Lemma C09_ex_empty_wf : wf (empty_sk 7).
-Proof. unfold wf. vm_compute. repeat split; try reflexivity; discriminate. Qed.
+Proof. unfold wf. change (sk_empty (empty_sk 7)) with true. cbv iota. repeat split; discriminate. Qed.
 
 Example C09_ebpps_nonvacuous :
   length (enc C09_ex) = 72%nat /\ dec_bytes (enc C09_ex ++ [1; 2; 3]) = Some C09_ex /\
